@@ -293,15 +293,13 @@ def run(facts, res):
             if fl.body is not b or fl.consumer != "next" or not fl.listing:
                 continue
             n6b += 1
-            bad = []
-            for l in lits_of(b, fl.cons_block, facts):
+            from ..conds import unaccepted
+
+            def entry_ok(l):
                 if l.kind == "variant":
-                    continue            # `?` / match on a Result, a preceding loop's exit
-                if l.kind == "call":
-                    n_ = callee_name(l.term)
-                    if n_ in ("is_empty", "has_staging", "is_ok", "is_err", "is_some", "is_none"):
-                        continue
-                bad.append(repr(l))
+                    return True            # `?` / match on a Result, a preceding loop's exit
+                return l.kind == "call" and callee_name(l.term) in ("is_empty", "has_staging", "is_ok", "is_err", "is_some", "is_none")
+            bad = [repr(l) for l in unaccepted(lits_of(b, fl.cons_block, facts), entry_ok)]
             res.instance("H6", "%s: the loop over the listing is entered whenever the listing is non-empty (other guards: %s)" % (name, bad or "none"), b.loc())
             if bad:
                 res.violation("H6", "%s|listing-loop-guarded:%s" % (name, "cmp" if "cmp" in bad[0] else "other"),
